@@ -203,6 +203,13 @@ video_filter_init(struct video_filter_s* self,
     CHECK(out);
     *self = (struct video_filter_s){ .stream_id = stream_id, .out = out };
     channel_new(&self->in, channel_size_bytes);
+    // Register the filter's reader while the channel is empty (see
+    // video_sink_init): otherwise frames written before the filter thread's
+    // first read can be overwritten unread.
+    {
+        struct slice empty = channel_read_map(&self->in, &self->reader);
+        channel_read_unmap(&self->in, &self->reader, empty.end - empty.beg);
+    }
     thread_init(&self->thread);
     event_init(&self->accumulator_reset_event);
     return Device_Ok;
